@@ -5,7 +5,10 @@ boundary is the desynchronisation the property forbids (Desync).  The peer may c
 a symbolic byte offset.
 
 shard: nframes (1..3), mode = "none" | "fin" | "rst", state = "all" | "sub" | "none" (client subscribed to all / to D1's type /
-       to nothing), ack (bool), sync (bool), timeout = "none" | "zero"
+       to nothing), ack (bool), sync (bool), timeout = "none" | "zero" | "pos" (0.5 s; shard tick = seconds the clock advances per
+       reading: 0.001 -> the timeout never runs out, 1.0 -> it has run out by the time the first queued frame has been read;
+       the socket stays readable, so a positive timeout must behave like a blocking read whether or not the time is used up:
+       an unsubscribed frame is never handed to the caller)
 symbolic: per frame msg_type (int32), declared size 0..65535, version (uint32); the offset at which the peer closes/resets
 """
 import pyrtma.message as MSG
@@ -114,7 +117,9 @@ def scenario(m0, n0, v0, m1, n1, v1, m2, n2, v2, cut):
     state = sh("state", "all")
     ack = bool(sh("ack", 0))
     sync = bool(sh("sync", 0))
-    timeout = None if sh("timeout", "none") == "none" else 0
+    timeout = {"none": None, "zero": 0, "pos": 0.5}[sh("timeout", "none")]
+    C.time.t = 0.0
+    C.time.tick = sh("tick", 0.001)
     c = CW.new_client()
     sock = ScriptSock(frames, mode, cut)
     c._sock = sock
